@@ -607,8 +607,11 @@ def eval_contract(repo, con: Contract, variant, data, world: World, outcome, reg
         conds = [c for t, c in rconds.items() if exc_matches(outcome[1], t)]
         out["raise_allowed"] = bool(conds) and _decide(L, pins, L.Or(*conds)) is True
         return out
-    for exc, cond in rconds.items():
-        out["must_raise"][exc] = _decide(L, pins, L.Not(cond))     # True = correctly did not have to raise
+    if getattr(con, "raises_exact", True):
+        # "raises exactly when": a normal return is only right where no raise condition holds.  A contract with raises_exact = False
+        # only says when the function *may* raise (e.g. an early exit can return before the offending element is reached)
+        for exc, cond in rconds.items():
+            out["must_raise"][exc] = _decide(L, pins, L.Not(cond))     # True = correctly did not have to raise
     sp = None
     try:
         sp = con.spec(ex, a)
